@@ -22,7 +22,11 @@ RULE = ("every (state, operation) pair of the reference machine over the tier's 
         "the accessor view, the saved sectPr and the accessor view of the reopened bytes are judged by PageSet_Trace.tla")
 
 TRACE = ("PageSet_Trace.tla", "PageSet_Trace.cfg")
-CHUNK = 60000   # events per judge run (bounds the memory of one TLC trace evaluation)
+CHUNK = 45000    # events per judge run (bounds the memory of one TLC trace evaluation)
+JUDGES = 4       # trace judges running side by side (each is a single-worker TLC)
+
+import copy
+from concurrent.futures import ThreadPoolExecutor
 
 
 def gencfg(ctx, name, scale, mode, depth, install_all=True):
@@ -30,17 +34,29 @@ def gencfg(ctx, name, scale, mode, depth, install_all=True):
 
 
 def judge(ctx, cases, tag):
-    """execute + judge, in chunks of whole behaviours"""
-    per = max(1, CHUNK // max(1, max(len(c["steps"]) for c in cases) + 1))
-    k = 0
-    for i in range(0, len(cases), per):
+    """Execute the behaviours on the library, then judge them in chunks of whole behaviours (several TLC judges in parallel)."""
+    per = max(1, CHUNK // (max(len(c["steps"]) for c in cases) + 1))
+    jobs = []
+    for k, i in enumerate(range(0, len(cases), per)):
         part = cases[i:i + per]
         t = tag if len(cases) <= per else "%s%d" % (tag, k)
-        if t != tag:
-            ctx.cases_by_tag[t] = {c["id"]: c for c in part}
-        obs = ctx.run_exec("pageset", part, t)
-        ctx.tlc_trace(TRACE[0], TRACE[1], obs, t)
-        k += 1
+        ctx.cases_by_tag[t] = {c["id"]: c for c in part}
+        jobs.append((k, t, ctx.run_exec("pageset", part, t)))
+
+    def one(job):
+        k, t, obs = job
+        c = copy.copy(ctx)                      # private counters / TLC scratch numbering per judge
+        c.tlc_seq = 1000 * (len(ctx.cases_by_tag) + 1) + 10 * k
+        c.states = c.transitions = 0
+        c.witnesses = []
+        c.tlc_trace(TRACE[0], TRACE[1], obs, t)
+        return c
+
+    with ThreadPoolExecutor(max_workers=JUDGES) as ex:
+        for c in ex.map(one, jobs):
+            ctx.states += c.states
+            ctx.transitions += c.transitions
+            ctx.witnesses.extend(c.witnesses)
 
 
 def opcount(ctx, cases):
@@ -56,27 +72,35 @@ def pipeline(ctx, replay_case=None):
         judge(ctx, [replay_case], "replay")
         return ctx.finish(LEVEL, RULE)
     ctx.tlc_mc("PageSet_MC.tla", "PageSet_MC_quick.cfg" if q else "PageSet_MC_thorough.cfg")
-    scale = 1 if q else 3
-    pairs = ctx.tlc_gen("PageSet_MC.tla", gencfg(ctx, "gen_pairs.cfg", scale, "pairs", 2, install_all=not q), "pairs")
+    # (state, operation) pairs: the state is installed with one SetPageSettings call in a new document
+    #   quick:    Scale 1, every size x orientation x grid with the rest all-default / all-non-default
+    #   thorough: Scale 2 with EVERY state of the pool, and Scale 3 (largest pools) with the rest on the diagonal
+    plan = [("pairs", 1, False)] if q else [("pairs", 2, True), ("pairsL", 3, False)]
+    npairs = 0
+    for tag, scale, allst in plan:
+        pairs = ctx.tlc_gen("PageSet_MC.tla", gencfg(ctx, "gen_%s.cfg" % tag, scale, "pairs", 2, install_all=allst), tag)
+        opcount(ctx, pairs)
+        judge(ctx, pairs, tag)
+        npairs += len(pairs)
     ctx.exhaustive = True
-    opcount(ctx, pairs)
-    judge(ctx, pairs, "pairs")
-    ctx.extra_cov["state_action_pairs"] = len(pairs)
-    # random long sequences from a new document (all operations of the larger pools)
+    ctx.extra_cov["state_action_pairs"] = npairs
+    # random long sequences from a new document
     d = 12 if q else 30
     sim = ctx.tlc_gen("PageSet_MC.tla", gencfg(ctx, "gen_sim.cfg", 2 if q else 3, "seq", d), "sim", mode="sim",
-                      num=30 if q else 400, depth=d + 1, limit=600 if q else 8000)
+                      num=30 if q else 150, depth=d + 1, limit=600 if q else 3000)
     opcount(ctx, sim)
     judge(ctx, sim, "sim")
     if not q:
-        # installed state followed by three operations (sampled)
+        # an installed state followed by three operations (seeded sample of the triples)
         tri = ctx.tlc_gen("PageSet_MC.tla", gencfg(ctx, "gen_tri.cfg", 3, "pairs", 4), "tri", mode="sim",
-                          num=400, depth=5, seed_off=7, limit=20000)
+                          num=200, depth=5, seed_off=7, limit=8000)
         opcount(ctx, tri)
         judge(ctx, tri, "tri")
-    ctx.extra_cov["bounds"] = {"scale": scale, "pairs_depth": 2, "sim_depth": d}
-    ctx.extra_cov["exhaustive_what"] = ("every (installable state, operation) pair of PageSet_MC at Scale %d; sequences and "
-                                        "triples are seeded samples" % scale)
+    ctx.extra_cov["bounds"] = {"pairs": [{"scale": sc, "every_state": a} for _, sc, a in plan], "sim_depth": d,
+                               "mc_scale": 1 if q else 3}
+    ctx.extra_cov["exhaustive_what"] = (
+        "every (installed state, operation) pair of PageSet_MC for the pools listed under bounds.pairs; "
+        "longer sequences and triples are seeded samples")
     ctx.assumptions.append("tolerances: 1 twip on every length; a custom size closer than 1 mm (both dimensions, same way round) "
                            "to a predefined size may be reported/rewritten as that size")
     ctx.assumptions.append("requests whose validity the documentation leaves open (unknown size name, SetPageSize(Custom), negative "
